@@ -332,6 +332,11 @@ struct Case {
     threads: Vec<ThreadSpec>,
     steps: Vec<Step>,
     gates: Vec<Gate>,
+    /// a read that has to wait for an initialiser parked in a gate is issued anyway (by a thread
+    /// that owns no gate and runs in a known region) and completes when the initialiser is
+    /// resumed - the waiter path of region initialisation; otherwise such reads are skipped
+    #[serde(default)]
+    waiters: bool,
 }
 
 fn op_strategy(write_weight: u32) -> impl Strategy<Value = Op> {
@@ -383,13 +388,15 @@ fn case_strategy() -> impl Strategy<Value = Case> {
                     .prop_map(|(reader, site, k, ksync, actions)| Gate { reader, site, k: if site == SITE_SYNC { ksync } else { k }, actions }),
                 0..5,
             ),
+            prop::bool::weighted(0.6),
         )
-            .prop_map(|(region_ids, procs, threads, steps, gates)| Case {
+            .prop_map(|(region_ids, procs, threads, steps, gates, waiters)| Case {
                 region_ids,
                 procs,
                 threads,
                 steps,
                 gates,
+                waiters,
             })
     })
 }
@@ -710,6 +717,16 @@ struct Run<'a> {
     skipped_blocked: u32,
     skipped_parked: u32,
     unpinned_reads: u32,
+    /// reads issued although they have to wait for a parked initialiser; their `Done` arrives later
+    waiters: Vec<Waiter>,
+    waiter_reads: u32,
+}
+
+struct Waiter {
+    t: usize,
+    own_prev: Option<usize>,
+    start: u64,
+    region: Option<usize>,
 }
 
 #[derive(Debug, Clone, Copy, PartialEq, Eq)]
@@ -781,8 +798,50 @@ impl Run<'_> {
         }
     }
 
+    fn owns_gate(&self, t: usize) -> bool {
+        self.case.gates.iter().any(|g| pick_index(g.reader, self.nthreads) == t)
+    }
+
+    /// The `Done` of a read that had to wait for a parked initialiser.
+    fn finish_waiter(&mut self, thread: usize, outcome: Outcome) -> Result<(), Stop> {
+        let i = self.waiters.iter().position(|w| w.t == thread).expect("caller checked");
+        let w = self.waiters.swap_remove(i);
+        self.holds[thread] = None;
+        match outcome {
+            Outcome::Read(value) => {
+                let ri = self.reads.len();
+                for (_, win, _) in &self.stack {
+                    self.windows[*win].read_idx.push(ri);
+                }
+                let end = self.tick();
+                self.reads.push(ReadRec { thread, region: w.region, value, start: w.start, end, final_phase: false, own_prev: w.own_prev });
+                self.waiter_reads += 1;
+                Ok(())
+            }
+            Outcome::Panic(m) => Err(Stop::Panic(m)),
+            o => Err(Stop::Protocol(format!("waiting read answered {o:?}"))),
+        }
+    }
+
+    /// Nothing is parked any more: every read that waited for an initialiser must come back.
+    fn drain_waiters(&mut self) -> Result<(), Stop> {
+        while !self.waiters.is_empty() {
+            match self.pool.events.recv_timeout(watchdog()) {
+                Ok(Event::Done { thread, outcome }) if self.waiters.iter().any(|w| w.t == thread) => self.finish_waiter(thread, outcome)?,
+                Ok(e) => return Err(Stop::Protocol(format!("unexpected {e:?} while collecting waiting reads"))),
+                Err(_) => {
+                    return Err(Stop::Hang(format!(
+                        "thread {} started a read while another thread was initialising its region; that thread has long finished, the read never returned",
+                        self.waiters[0].t
+                    )));
+                }
+            }
+        }
+        Ok(())
+    }
+
     fn exec(&mut self, t: usize, mut op: Exec) -> Result<(), Stop> {
-        if self.stack.iter().any(|(r, _, _)| *r == t) {
+        if self.stack.iter().any(|(r, _, _)| *r == t) || self.waiters.iter().any(|w| w.t == t) {
             self.skipped_parked += 1;
             return Ok(());
         }
@@ -798,6 +857,15 @@ impl Run<'_> {
         match op {
             Exec::Read { get } => {
                 if self.read_would_block(t) {
+                    if self.case.waiters && !self.final_phase && self.region_of[t].is_some() && t != self.sweeper() && !self.owns_gate(t) {
+                        // issue it anyway: it blocks inside the library until the parked
+                        // initialiser is resumed; its answer is collected when it arrives
+                        let own_prev = self.prev_write[t].take();
+                        let start = self.tick();
+                        self.send(t, Cmd::Read { get })?;
+                        self.waiters.push(Waiter { t, own_prev, start, region: self.region_of[t] });
+                        return Ok(());
+                    }
                     self.skipped_blocked += 1;
                     return Ok(());
                 }
@@ -935,6 +1003,10 @@ impl Run<'_> {
             let ev = self.next_event(t)?;
             match ev {
                 Event::Done { thread, outcome } => {
+                    if thread != t && self.waiters.iter().any(|w| w.t == thread) {
+                        self.finish_waiter(thread, outcome)?;
+                        continue;
+                    }
                     if thread != t {
                         return Err(Stop::Protocol(format!("thread {thread} finished while {t} was running")));
                     }
@@ -1088,6 +1160,8 @@ struct Report {
     skipped_blocked: u32,
     skipped_parked: u32,
     unpinned_reads: u32,
+    #[serde(default)]
+    waiter_reads: u32,
 }
 
 #[derive(Debug, Serialize, Deserialize)]
@@ -1155,6 +1229,8 @@ fn exec_case<K: Kind>(case: &Case, pool_slot: &mut Option<Pool>) -> ChildReply {
         skipped_blocked: 0,
         skipped_parked: 0,
         unpinned_reads: 0,
+        waiters: Vec::new(),
+        waiter_reads: 0,
     };
 
     // --- threads (the last one is the sweeper: instance first, then visits every region at the end)
@@ -1212,6 +1288,7 @@ fn exec_case<K: Kind>(case: &Case, pool_slot: &mut Option<Pool>) -> ChildReply {
             skipped_blocked: run.skipped_blocked,
             skipped_parked: run.skipped_parked,
             unpinned_reads: run.unpinned_reads,
+            waiter_reads: run.waiter_reads,
         }),
         Err(Stop::Hang(m)) => ChildReply::Hang(m),
         Err(Stop::Panic(m)) => ChildReply::Panic(m),
@@ -1262,6 +1339,7 @@ fn drive(run: &mut Run<'_>, nthreads_with_sweeper: usize) -> Result<(), Stop> {
     for s in &case.steps {
         run.step(s)?;
     }
+    run.drain_waiters()?;
     // --- quiescent phase: everything has returned; no gate fires any more
     run.final_phase = true;
     for t in 0..nthreads_with_sweeper {
@@ -1309,6 +1387,9 @@ fn judge(run: &Report, cached: bool, name: &str, ctx: &mut Ctx) -> Verdict {
     }
     if run.skipped_blocked > 0 {
         ctx.classify("action-skipped:would-wait-for-parked-initialiser");
+    }
+    if run.waiter_reads > 0 {
+        ctx.classify("read-waited-for-a-parked-initialiser(waiter-path)");
     }
     if run.skipped_parked > 0 {
         ctx.classify("action-skipped:thread-is-parked");
